@@ -97,7 +97,7 @@ func runC16(w *W) {
 
 	so := tgenOpts{MaxStructs: 1 + t.Intn(4, "sch.structs"), MaxFields: 1 + t.Intn(8, "sch.fields"), MaxDepth: 1 + t.Intn(3, "sch.depth"),
 		BigIDs: t.Chance(1, 2, "sch.bigids"), ManyFields: t.Chance(1, 5, "sch.wide"), Requiredness: true, Recursive: t.Chance(1, 3, "sch.rec"),
-		Defaults: mode != 2 && t.Chance(1, 2, "sch.defaults"), OptionalDefaults: t.Chance(1, 25, "sch.optdefaults"),
+		Defaults: mode != 2 && t.Chance(1, 2, "sch.defaults"), OptionalDefaults: t.Chance(1, 25, "sch.optdefaults"), ConstDefaults: t.Chance(1, 3, "sch.constdefaults"),
 		Aliases: mode != 2 && t.Chance(1, 20, "sch.alias"), NoBinary: true}
 	sch := genSchema(t, so)
 	po := thrift.Options{UseDefaultValue: so.Defaults && t.Chance(2, 3, "parse.usedefault"), SetOptionalBitmap: mode != 2 && t.Chance(1, 2, "parse.optbitmap")}
